@@ -163,6 +163,12 @@ func (p *c18) Gen(seed uint64, i int, tier string) (any, bool) {
 		return ContentSpec{Data: d, Chunks: GenChunks(r)}
 	}
 	np := 1 + r.Intn(2)
+	soleFile := r.Chance(1, 10)
+	if soleFile {
+		// no body part: a single file is then written at the top level, its Content-* fields
+		// are part of the message's own header section
+		np = 0
+	}
 	for k := 0; k < np; k++ {
 		ps := PartSpec{Type: "text/plain", Content: content(true)}
 		if k == 1 {
@@ -177,9 +183,12 @@ func (p *c18) Gen(seed uint64, i int, tier string) (any, bool) {
 		m.Parts = append(m.Parts, ps)
 	}
 	nf := r.Intn(3)
+	if soleFile {
+		nf = 1 + r.Intn(2)*r.Intn(2)
+	}
 	for k := 0; k < nf; k++ {
 		f := FileSpec{Name: fmt.Sprintf("file-%d.bin", k), Content: content(r.Chance(1, 3)), Source: sim.Pick(r, []string{"writer", "readseeker", "fs"})}
-		if r.Chance(1, 6) {
+		if r.Chance(1, 6) || (soleFile && r.Chance(1, 2)) {
 			f.Name = strings.TrimSpace(strings.NewReplacer("/", "", `"`, "").Replace(genHeaderValue(r))) + ".dat"
 			if len(f.Name) > 150 {
 				f.Name = f.Name[:150]
@@ -410,6 +419,13 @@ func (p *c18) Exec(t *testing.T, scAny any) Outcome {
 		}
 		if normWS(got) != normWS(want) {
 			out.violate("C18:header-value:"+name, "header %s unfolds to %q, but %q was set (raw %q)", name, normWS(got), normWS(want), raw)
+			return
+		}
+		// runs of blanks inside the value are part of the value (the blanks at its edges are not:
+		// they are indistinguishable from the separator after the colon and from trailing white
+		// space); values with control characters are only compared modulo white space
+		if !strings.ContainsFunc(want, func(c rune) bool { return c < 0x20 || c == 0x7f }) && strings.Trim(got, " ") != strings.Trim(want, " ") {
+			out.violate("C18:header-blanks:"+name, "header %s unfolds to %q, but %q was set: runs of blanks changed (raw %q)", name, got, want, raw)
 		}
 	}
 	check("Subject", sc.Msg.Subject)
